@@ -40,7 +40,7 @@ VERIFY_FAIL_MSGS = ('postcondition not satisfied', 'precondition not satisfied',
                     'possible arithmetic', 'possible division by zero', 'invariant not satisfied',
                     'loop invariant', 'decreases not satisfied', 'possible bit shift', 'assertion failure',
                     'unreachable code may be reachable', 'constructed value may fail to meet its declared type invariant',
-                    'could not prove termination', 'failed to prove', 'cannot show invariant', 'invariant not')
+                    'could not prove termination', 'failed to prove', 'cannot show invariant', 'invariant not', 'unable to prove', 'closure')
 
 
 class Undecided(Exception):
@@ -128,6 +128,26 @@ def run_verus(path, extra=(), timeout=600):
         elif l:
             raw.append(l)
     return dict(cmd=' '.join(cmd), rc=p.returncode, json=out, diags=diags, raw=raw, wall=wall)
+
+
+CLOSURE_RE = re.compile(r'(?:[(,=]\s*(?:move\s+)?)\|([^|\n]*)\|(\s*->\s*\()?')
+BASELINE_FILE = os.path.join(HERE, 'closure_baseline.json')
+
+
+def unannotated_closures(text):
+    """number of closures without a contract in a function text (Verus knows nothing about what they return)"""
+    code = '\n'.join(l.split('//')[0] for l in text.split('\n'))
+    return sum(1 for m in CLOSURE_RE.finditer(code) if not m.group(2))
+
+
+def closure_taint(unit_name, ctx):
+    """functions whose number of contract-less closures exceeds what the pinned tree has (committed baseline)"""
+    try:
+        base = json.load(open(BASELINE_FILE)).get(unit_name, {})
+    except (OSError, ValueError):
+        base = {}
+    cur = {e.key: unannotated_closures(e.text) for e in ctx.extracted if getattr(e, 'sig_final', None)}
+    return {k for k, n in cur.items() if n > base.get(k, 0)}, cur
 
 
 def verus_unit(unit, workdir, text, tier):
@@ -313,9 +333,8 @@ def kani_unit(unit, workdir, text, tier):
     env = dict(os.environ, CARGO_NET_OFFLINE='true', CARGO_TARGET_DIR=os.path.join(workdir, 'target'))
     cmd = ['cargo', 'kani', '-Z', 'function-contracts', '-Z', 'stubbing', '--output-format', 'terse', '-j', '8'] + list(getattr(unit, 'KANI_ARGS', ()))
     t0 = time.time()
-    try:
-        p = subprocess.run(cmd, cwd=crate, capture_output=True, text=True, env=env, timeout=getattr(unit, 'TIMEOUT', 1500))
-    except subprocess.TimeoutExpired:
+    p = _run_group(cmd, crate, env, getattr(unit, 'TIMEOUT', 420))
+    if p is None:
         raise Undecided('kani timed out on unit %s' % unit.NAME)
     wall = time.time() - t0
     out = p.stdout + '\n' + p.stderr
@@ -357,6 +376,28 @@ def kani_unit(unit, workdir, text, tier):
                 crate=crate, env_target=env['CARGO_TARGET_DIR'])
 
 
+class _P:
+    pass
+
+
+def _run_group(cmd, cwd, env, timeout):
+    """run in its own process group so that a timeout also kills cbmc grandchildren"""
+    import signal
+    proc = subprocess.Popen(cmd, cwd=cwd, env=env, stdout=subprocess.PIPE, stderr=subprocess.PIPE, text=True, start_new_session=True)
+    try:
+        out, err = proc.communicate(timeout=timeout)
+    except subprocess.TimeoutExpired:
+        try:
+            os.killpg(proc.pid, signal.SIGKILL)
+        except ProcessLookupError:
+            pass
+        proc.communicate()
+        return None
+    r = _P()
+    r.stdout, r.stderr, r.returncode = out, err, proc.returncode
+    return r
+
+
 def _kani_failure_excerpt(out, h):
     idx = out.find('Checking harness')
     chunks = re.split(r'(?=Checking harness )', out)
@@ -367,15 +408,24 @@ def _kani_failure_excerpt(out, h):
     return 'harness %s failed (see kani.log)' % h
 
 
+_PLAYBACK = {}
+
+
 def kani_playback(unitres, harness, timeout=900):
     """re-run one failed harness with concrete playback; returns list of byte vectors (kani::any() order) or None"""
+    key = (unitres['crate'], harness)
+    if key not in _PLAYBACK:
+        _PLAYBACK[key] = _kani_playback(unitres, harness, timeout)
+    return _PLAYBACK[key]
+
+
+def _kani_playback(unitres, harness, timeout=900):
     crate = unitres['crate']
     env = dict(os.environ, CARGO_NET_OFFLINE='true', CARGO_TARGET_DIR=unitres['env_target'])
     cmd = ['cargo', 'kani', '-Z', 'function-contracts', '-Z', 'stubbing', '-Z', 'concrete-playback', '--concrete-playback=print',
            '--harness', harness]
-    try:
-        p = subprocess.run(cmd, cwd=crate, capture_output=True, text=True, env=env, timeout=timeout)
-    except subprocess.TimeoutExpired:
+    p = _run_group(cmd, crate, env, min(timeout, 300))
+    if p is None:
         return None, 'playback timed out'
     out = p.stdout + p.stderr
     vecs = []
@@ -417,6 +467,11 @@ def run_unit(name, tier, repo=None, cache=None, probes=True):
         base['notes'] = ctx.notes
         if unit.BACKEND == 'verus':
             r = verus_unit(unit, workdir, text, tier)
+            tainted, counts = closure_taint(unit.NAME, ctx)
+            for o in r['obligations']:
+                if any(o['id'] == k or o['id'].startswith(k + '::') for k in tainted):
+                    o['tainted'] = 'the function now contains a closure without contract that the pinned tree does not have'
+            r['closure_counts'] = counts
             base.update(r)
             if probes and getattr(unit, 'PROBES', True) and ctx.probe_fns:
                 base['probes'] = run_probes(unit, ctx, text, workdir)
@@ -641,6 +696,10 @@ def check_property(prop, tier, registry, seed=0):
                         suffix = ''
             except Exception as e:  # counterexample search is best effort
                 replay['counterexample_error'] = repr(e)
+        if suffix and o['backend'].startswith('verus') and o.get('tainted'):
+            undecided.append(dict(unit=o['unit'], status='undecided', backend='verus',
+                                  reason='obligation %s cannot be discharged: %s, and no failing input was found on the real code' % (o['id'], o['tainted'])))
+            continue
         if suffix and o['backend'].startswith('verus') and unit_helpers.get(o['unit']):
             # modular verification cannot see through a callee without contract: a failure here is not evidence of a defect
             undecided.append(dict(unit=o['unit'], status='undecided', backend='verus',
